@@ -273,7 +273,8 @@ def check(ctx):
                 for _p, conds_ in reach_:
                     lits_ = []
                     for c2 in conds_:
-                        t_ = c2[0]
+                        t_ = re.sub(r'\s*@before .*$', '', c2[0])
+                        t_ = re.sub(r'@\d+', '', t_)           # the version marks of loop variables: inside the callee the parameter is one object
                         for a_, b_ in ren.items():
                             if a_ != b_:
                                 t_ = re.sub(r'\b%s\b' % re.escape(a_), b_, t_)
